@@ -4,7 +4,7 @@ WSUpgradeTrace): C12, C13 and the server part of C16.  Pipeline: TLC enumerates 
 splitting, keys, buffer sizes) -> Go driver family "upgrade" (real Upgrader.Upgrade over a fake
 ResponseWriter/Hijacker and a fault-injecting logged connection) -> TLC trace validation against the
 envelope WSUpgrade!OutcomeAllowed (TLC parses the request lines and the raw 101 bytes itself)."""
-import base64, json, os, random, time
+import base64, hashlib, json, os, random, time
 from concurrent.futures import ThreadPoolExecutor
 from . import core
 from .core import log
@@ -209,6 +209,21 @@ def validate(trace, files, name):
             os.environ["JAVA_TOOL_OPTIONS"] = old
 
 
+def find_program(trace_files, tid):
+    """Read a concrete program back from the shard files written by core.drive (progs.N.ndjson next to traces.N.ndjson)."""
+    needle = json.dumps(tid)
+    for tf in trace_files:
+        pf = os.path.join(os.path.dirname(tf), os.path.basename(tf).replace("traces.", "progs."))
+        if not os.path.exists(pf):
+            continue
+        for line in open(pf):
+            if needle in line:
+                p = json.loads(line)
+                if p.get("id") == tid:
+                    return p
+    return None
+
+
 def run_check(pid, tier, parts, fam=FAM, trace=TRACE, assumptions=ASSUME, floors=None, rule="", describe_fn=describe,
               evidence_id=None, extra_cov=None):
     """parts: list of dict(mc=(module,cfg), conc=function(progs, rnd_seed)->concrete programs, max_progs=None).
@@ -232,33 +247,39 @@ def run_check(pid, tier, parts, fam=FAM, trace=TRACE, assumptions=ASSUME, floors
             progs = random.Random(seed).sample(progs, pt["max_progs"])
             exhaustive = False
         # TLC prints an initial state once per generation (before fingerprint deduplication)
+        # (memory: thorough tiers have several 10^5 programs; keep digests, release TLC's parsed output early)
         uniq = {}
         for p in progs:
-            uniq.setdefault(key_of(p), p)
+            uniq.setdefault(hashlib.md5(key_of(p).encode()).digest(), p)
         progs = list(uniq.values())
         nabs += len(progs)
         distinct.update(uniq.keys())
+        del uniq
+        r["progs"] = None
         conc += pt["conc"](progs, seed)
+        del progs
     ids = set()
     for c in conc:
         if c["id"] in ids:
             raise core.Infra("duplicate program id %s" % c["id"])
         ids.add(c["id"])
-    byid = {p["id"]: p for p in conc}
     name = "upg-%s-%s" % (pid, tier)
     core.rundir(name)
     files = core.drive(fam, conc, name)
-    res = validate(trace, files, name)
-    log("[%s] drove %d programs, validated %d traces / %d events (%d TLC states), %.1fs so far"
-        % (pid, len(conc), res["traces"], res["events"], res["states"], time.time() - t0))
-    if res["traces"] != len(conc):
-        raise core.Infra("trace count mismatch: %d programs, %d traces" % (len(conc), res["traces"]))
     cov_extra = {}
     if floors:
         cov_extra = floors(conc, files)
+    nconc = len(conc)
+    samples = [dict(program=conc[i]) for i in sorted({0, nconc // 2, nconc - 1})]
+    del conc, ids          # (memory) the programs are in the shard files now; a rejected one is read back from there
+    res = validate(trace, files, name)
+    log("[%s] drove %d programs, validated %d traces / %d events (%d TLC states), %.1fs so far"
+        % (pid, nconc, res["traces"], res["events"], res["states"], time.time() - t0))
+    if res["traces"] != nconc:
+        raise core.Infra("trace count mismatch: %d programs, %d traces" % (nconc, res["traces"]))
     violations = []
     for rj in res["rejections"][:MAX_REPRO]:
-        prog = byid.get(rj["tid"])
+        prog = find_program(files, rj["tid"])
         if prog is None:
             raise core.Infra("rejected trace without program: %r" % rj["tid"])
         rname = name + "-repro"
@@ -271,10 +292,9 @@ def run_check(pid, tier, parts, fam=FAM, trace=TRACE, assumptions=ASSUME, floors
         why = "event %d (%s) is not admitted by the specification: %s" % (rj2["index"], rj2["event"].get("e"), json.dumps(rj2["event"])[:600])
         path = core.save_replay(pid, fam, prog, rj2["trace"], why, extra=dict(summary=describe_fn(prog)) if describe_fn else None)
         violations.append(path)
-    samples = [dict(program=conc[i]) for i in sorted({0, len(conc) // 2, len(conc) - 1})]
     cov = dict(states=states, transitions=trans, traces_validated_against_impl=res["traces"],
                trace_events=res["events"], trace_validation_states=res["states"],
-               evaluations=len(conc), distinct_nontrivial=len(distinct), abstract_programs=nabs,
+               evaluations=nconc, distinct_nontrivial=len(distinct), abstract_programs=nabs,
                rule=rule or "abstract programs = initial states of the TLC runs; every one performs a complete Upgrade call "
                             "(non-trivial); distinct by abstract program; each is concretised and executed on the real library",
                samples=samples, exhaustive=exhaustive, mc_configs=["%s/%s" % pt["mc"] for pt in parts])
